@@ -2,4 +2,5 @@ import TinyFlux.Audit.Tool
 import TinyFlux.Props.C04
 import TinyFlux.Props.C04EndToEnd
 import TinyFlux.Props.C04State
+import TinyFlux.Props.C04Witness
 #audit TinyFlux.Props.C04
